@@ -239,9 +239,21 @@ func randGen32(r *rand.Rand, keys []uint64) iset {
 		}
 		var sp []span
 		low := uint64(r.Intn(65536))
-		for k := 0; k < spreadKeys; k++ {
+		n := spreadKeys
+		if spreadKeys >= 1000 { // chunk counts around the multiples of 1024 (the offset header is then a multiple of 4096 bytes)
+			for {
+				n = pick(r, []int{1023, 1024, 1025, 2047, 2048, 3072, 4096})
+				if n <= spreadKeys {
+					break
+				}
+			}
+		}
+		for k := 0; k < n; k++ {
 			v := (k0+uint64(k))<<16 + low
 			sp = append(sp, span{v, v})
+		}
+		if spreadKeys >= 1000 && r.Intn(2) == 0 {
+			return normalize(sp) // exactly n chunks
 		}
 		s = s.union(normalize(sp))
 	}
